@@ -2141,14 +2141,15 @@ const (
 	pstEcExtendFrame
 	pstEcStale
 	pstEcForeign
+	pstEcMisplaced
 	pstEcKinds
 )
 
-var pstEcKindNames = []string{"missing", "truncated-in-shard-header", "flip-shard-header", "truncated-at-frame-boundary", "truncated-mid-frame", "flip-frame-header", "flip-payload", "frame-dropped", "frames-swapped", "extended-by-less-than-a-frame-header", "extended-by-a-frame-header-or-more", "stale-shard", "foreign-shard"}
+var pstEcKindNames = []string{"missing", "truncated-in-shard-header", "flip-shard-header", "truncated-at-frame-boundary", "truncated-mid-frame", "flip-frame-header", "flip-payload", "frame-dropped", "frames-swapped", "extended-by-less-than-a-frame-header", "extended-by-a-frame-header-or-more", "stale-shard", "foreign-shard", "misplaced-shard"}
 
 // pstEcOpenTime: fault kinds the middleware can see when it opens the shard
 // (absent or unusable shard header); all others only show while frames are read.
-func pstEcOpenTime(kind int) bool { return kind <= pstEcFlipShardHeader }
+func pstEcOpenTime(kind int) bool { return kind <= pstEcFlipShardHeader || kind == pstEcMisplaced }
 
 // pstEcLayout is the frame structure of a stored shard, derived from the stored
 // bytes themselves: the shard header length is the length of an empty part's
@@ -2345,6 +2346,11 @@ func runC17(rc *RunCtx) (*Violation, error) {
 				return append(cp(), extra...), false, fmt.Sprintf("%d extra zero bytes", len(extra))
 			case pstEcStale:
 				return append([]byte(nil), stale[i]...), false, "shard of the older write"
+			case pstEcMisplaced:
+				// the well-formed shard of the same write that belongs into another shard store
+				// (files exchanged by a restore, re-mount or rebalance)
+				j := (i + 1 + g.Int(total-1)) % total
+				return append([]byte(nil), good[j]...), false, fmt.Sprintf("shard %d of the same write", j)
 			default:
 				return append([]byte(nil), foreign[i]...), false, "shard of the other part"
 			}
@@ -2717,7 +2723,7 @@ func runC17(rc *RunCtx) (*Violation, error) {
 func init() {
 	Register(&Scenario{
 		Prop: "C17", Name: "ec-shard-faults", Level: "fault_enumeration",
-		Rule: "erasure-coding stacks 2+1, 3+2 and 4+2 with shard stripe sizes 1024/2048/4096 over filesystem or SQL shard stores; a part of length 0, 1..data+1, < one stripe or +-2 around 1-3 stripes (sometimes plus a partial stripe) is written through the middleware (after an older write of the same id and next to another part), the shard frame layout is derived from the stored shards, then durable stored-byte faults are applied through the shard stores below the seams and the part is read through the middleware: (1) each of thirteen fault kinds (missing, truncated in the shard header / at a frame boundary / mid-frame, flipped byte in shard header / frame header / payload, a frame removed, two frames swapped, extended by less / more than a frame header, stale shard of the older write, shard of the other part) alone on a drawn data shard and on a drawn parity shard, (2) EVERY subset of shards for 2+1 and 3+2 (14 drawn subsets for 4+2) with one drawn kind or a drawn mixture of kinds, (3) in a third of the runs every byte of one frame header of one shard flipped in turn, (4) on SQL shard stores a degraded read in a read-only transaction while a second task commits another write (the heal write then fails); oracle: <= parity faulty shards => the read (in a read-write transaction) returns exactly the original bytes and afterwards the part still reads exactly with `parity` of the untouched shards deleted (= the faulty ones were restored); > parity faulty shards => the read fails or returns exactly the original bytes, never other bytes; non-trivial = at least 8 fault cases judged",
+		Rule: "erasure-coding stacks 2+1, 3+2 and 4+2 with shard stripe sizes 1024/2048/4096 over filesystem or SQL shard stores; a part of length 0, 1..data+1, < one stripe or +-2 around 1-3 stripes (sometimes plus a partial stripe) is written through the middleware (after an older write of the same id and next to another part), the shard frame layout is derived from the stored shards, then durable stored-byte faults are applied through the shard stores below the seams and the part is read through the middleware: (1) each of fourteen fault kinds (missing, truncated in the shard header / at a frame boundary / mid-frame, flipped byte in shard header / frame header / payload, a frame removed, two frames swapped, extended by less / more than a frame header, stale shard of the older write, shard of the other part, the well-formed shard of the same write that belongs into another shard store (shards exchanged between stores)) alone on a drawn data shard and on a drawn parity shard, (2) EVERY subset of shards for 2+1 and 3+2 (14 drawn subsets for 4+2) with one drawn kind or a drawn mixture of kinds, (3) in a third of the runs every byte of one frame header of one shard flipped in turn, (4) on SQL shard stores a degraded read in a read-only transaction while a second task commits another write (the heal write then fails); oracle: <= parity faulty shards => the read (in a read-write transaction) returns exactly the original bytes and afterwards the part still reads exactly with `parity` of the untouched shards deleted (= the faulty ones were restored); > parity faulty shards => the read fails or returns exactly the original bytes, never other bytes; non-trivial = at least 8 fault cases judged",
 		Real: append([]string{"partstore middleware erasurecoding (PutPart, GetPart, openPartReaders, newPartReader heal-on-read, partLocker)", "github.com/klauspost/reedsolomon"}, pstRealStores...),
 		Stub: []string{"stored-byte faults are applied by the harness directly on the shard stores", "background heal scan disabled (heal-on-read only)", "no storage layer above the part stores", "shard stores wrapped by a pass-through guard that records a heal PutPart failing without consuming its input pipe and closes the pipe (without it the run deadlocks inside pithos)"},
 		Run:  runC17,
